@@ -631,9 +631,6 @@ Qed.
 
 (** skipped fields: exactly the non-skipped fields are handed to the builder, in declaration order, and
     the chain is closed with finish_non_exhaustive iff some field is skipped *)
-Definition printed (p : nat * fattr) : list fexpr :=
-  match snd p with ASkip => [] | ANone => [FeField (fst p)] | AFmt k => [FeArgs (fst p) k] end.
-Definition is_skip (a : fattr) : bool := match a with ASkip => true | _ => false end.
 
 Lemma unnamed_calls_spec : forall l i,
   unnamed_calls i l = (flat_map printed (combine (seq i (length l)) l), negb (existsb is_skip l)).
@@ -643,12 +640,6 @@ Proof.
   destruct a; cbn; try reflexivity.
 Qed.
 
-Definition printed_named (u : bool) (p : nat * (ident * fattr)) : list (str * fexpr) :=
-  match snd (snd p) with
-  | ASkip => []
-  | ANone => [(site_string u (fst (snd p)), FeField (fst p))]
-  | AFmt k => [(site_string u (fst (snd p)), FeArgs (fst p) k)]
-  end.
 
 Lemma named_calls_spec : forall l u i,
   named_calls u i l =
@@ -658,3 +649,358 @@ Proof.
   cbn [named_calls length seq combine flat_map existsb]. rewrite IH.
   destruct a; cbn; try reflexivity.
 Qed.
+
+(* ================================================================== 8. attributes: the hand-written reference *)
+
+(** every arrangement of plain / skip / ignore / formatted fields, tuple or named, raw names or not:
+    derive_more emits exactly the reference chain (on its own tuple builder) *)
+Lemma attrs_reference e : std_of_body (generate_body_now e) = reference_body e.
+Proof.
+  destruct e as [id fs]. unfold generate_body_now, generate_body, reference_body.
+  cbn [e_ident e_fields current_sites unit_unraw tuple_unraw named_unraw field_unraw].
+  destruct fs as [|l|l].
+  - reflexivity.
+  - rewrite unnamed_calls_spec. reflexivity.
+  - rewrite named_calls_spec. reflexivity.
+Qed.
+
+Lemma unnamed_printed_app : forall l1 l2 i,
+  flat_map printed (combine (seq i (length (l1 ++ l2))) (l1 ++ l2)) =
+  flat_map printed (combine (seq i (length l1)) l1) ++
+  flat_map printed (combine (seq (i + length l1) (length l2)) l2).
+Proof.
+  induction l1 as [|a l1 IH]; intros l2 i.
+  - cbn. now rewrite Nat.add_0_r.
+  - cbn [app length seq combine flat_map]. rewrite IH, <- app_assoc.
+    now replace (S i + length l1)%nat with (i + S (length l1))%nat by lia.
+Qed.
+
+(** locality: a field's attribute decides that field's entry and nothing else *)
+Lemma unnamed_calls_local l1 a l2 :
+  fst (unnamed_calls 0 (l1 ++ a :: l2)) =
+  fst (unnamed_calls 0 l1) ++ printed (length l1, a) ++ fst (unnamed_calls (S (length l1)) l2).
+Proof.
+  rewrite !unnamed_calls_spec. cbn [fst]. rewrite unnamed_printed_app.
+  cbn [length seq combine flat_map Nat.add]. reflexivity.
+Qed.
+
+(** unit, [S()], [S {}]: just the name, whatever the formatter *)
+Lemma empty_shapes e fv av c w :
+  (e_fields e = FUnit \/ e_fields e = FUnnamed [] \/ e_fields e = FNamed []) ->
+  fmt_val (body_val fv av (generate_body_now e)) c w = (write_str w (iname (e_ident e)), true).
+Proof. destruct e as [id fs]. cbn [e_fields e_ident]. intros [->|[->| ->]]; reflexivity. Qed.
+
+(** a format_args! value is formatted by fresh formatters: the outer configuration is irrelevant *)
+Lemma args_ignore_outer ps tail c c' w : fmt_val (VArgs ps tail) c w = fmt_val (VArgs ps tail) c' w.
+Proof. reflexivity. Qed.
+
+(* ================================================================== 9. generate_bounds *)
+
+Section bounds.
+  Variable generic : nat -> bool.
+  Variable refs : nat -> nat -> list bound.
+
+  Lemma bounds_from_sound : forall l i j tr,
+    In (j, tr) (bounds_from generic refs i l) ->
+    generic j = true /\
+    ((tr = TrDebug /\ exists n, j = (i + n)%nat /\ nth_error l n = Some ANone) \/
+     (exists n k, nth_error l n = Some (AFmt k) /\ In (j, tr) (refs (i + n)%nat k))).
+  Proof.
+    induction l as [|a l IH]; intros i j tr H; [destruct H|].
+    cbn [bounds_from] in H. apply in_app_or in H as [H|H].
+    - destruct a as [| |k].
+      + destruct (generic i) eqn:G; [|destruct H]. destruct H as [H|[]]. inversion H; subst.
+        split; [exact G|]. left. split; [reflexivity|]. exists 0%nat. split; [lia|reflexivity].
+      + destruct H.
+      + apply filter_In in H as [H G]. cbn [fst] in G. split; [exact G|]. right. exists 0%nat, k.
+        split; [reflexivity|]. now rewrite Nat.add_0_r.
+    - apply IH in H as [G [[Ht (n & Hn & Hl)]|(n & k & Hl & Hr)]]; (split; [exact G|]).
+      + left. split; [exact Ht|]. exists (S n). split; [lia|exact Hl].
+      + right. exists (S n), k. split; [exact Hl|]. now replace (i + S n)%nat with (S i + n)%nat by lia.
+  Qed.
+
+  Lemma bounds_from_plain_complete : forall l i n,
+    nth_error l n = Some ANone -> generic (i + n)%nat = true ->
+    In ((i + n)%nat, TrDebug) (bounds_from generic refs i l).
+  Proof.
+    induction l as [|a l IH]; intros i [|n] H G; try discriminate H; cbn [bounds_from]; apply in_or_app.
+    - cbn in H. inversion H; subst. left. rewrite Nat.add_0_r in G |- *. rewrite G. now left.
+    - right. cbn in H. replace (i + S n)%nat with (S i + n)%nat in * by lia. now apply IH.
+  Qed.
+
+  Lemma bounds_from_fmt_complete : forall l i n k j tr,
+    nth_error l n = Some (AFmt k) -> In (j, tr) (refs (i + n)%nat k) -> generic j = true ->
+    In (j, tr) (bounds_from generic refs i l).
+  Proof.
+    induction l as [|a l IH]; intros i [|n] k j tr H Hr G; try discriminate H; cbn [bounds_from]; apply in_or_app.
+    - cbn in H. inversion H; subst. left. rewrite Nat.add_0_r in Hr. apply filter_In. now split.
+    - right. cbn in H. replace (i + S n)%nat with (S i + n)%nat in * by lia. now apply (IH (S i) n k).
+  Qed.
+End bounds.
+
+(** exact characterisation of the generated where-predicates *)
+Lemma generate_bounds_exact generic refs e j tr :
+  In (j, tr) (generate_bounds generic refs e) <->
+  generic j = true /\
+  ((tr = TrDebug /\ nth_error (field_attrs (e_fields e)) j = Some ANone) \/
+   (exists i k, nth_error (field_attrs (e_fields e)) i = Some (AFmt k) /\ In (j, tr) (refs i k))).
+Proof.
+  unfold generate_bounds. split.
+  - intros H. apply bounds_from_sound in H as [G [[Ht (n & Hn & Hl)]|(n & k & Hl & Hr)]]; (split; [exact G|]).
+    + left. cbn in Hn. subst. now split.
+    + right. now exists n, k.
+  - intros [G [[-> H]|(i & k & H & Hr)]].
+    + now apply (bounds_from_plain_complete generic refs _ 0 j).
+    + now apply (bounds_from_fmt_complete generic refs _ 0 i k).
+Qed.
+
+(** skipped fields impose no bound of their own: without field-level formats only plainly printed fields
+    with a generic type are bounded, each by Debug *)
+Lemma generate_bounds_skip_free generic refs e j tr :
+  (forall i k, nth_error (field_attrs (e_fields e)) i <> Some (AFmt k)) ->
+  In (j, tr) (generate_bounds generic refs e) ->
+  tr = TrDebug /\ generic j = true /\ nth_error (field_attrs (e_fields e)) j = Some ANone.
+Proof.
+  intros Hno H. apply generate_bounds_exact in H as [G [[-> H]|(i & k & H & _)]]; [auto|].
+  now apply Hno in H.
+Qed.
+
+Example generate_bounds_example :
+  generate_bounds (fun j => match j with 0 | 1 | 3 => true | _ => false end)%nat
+                  (fun i k => [(3, TrDisplay); (2, TrLowerHex)]%nat)
+                  (mkexp (mkid false [71]) (FUnnamed [ANone; ASkip; ANone; AFmt 0]))
+  = [(0, TrDebug); (3, TrDisplay)]%nat.
+Proof. reflexivity. Qed.
+
+(* ================================================================== 10. derived programs, end to end *)
+
+Section dval_induction.
+  Variable P : dval -> Prop.
+  Hypothesis Hleaf : forall f, P (DLeaf f).
+  Hypothesis Hadt : forall e fs avs, Forall P fs -> Forall P avs -> P (DAdt e fs avs).
+  Hypothesis Hstd : forall n fs, Forall P fs -> P (DStd n fs).
+  Hypothesis Hname : forall n, P (DName n).
+  Hypothesis Hlist : forall items, Forall P items -> P (DList items).
+  Hypothesis Hargs : forall ps tail, Forall (fun p => P (snd p)) ps -> P (DArgs ps tail).
+
+  Fixpoint dval_ind' (d : dval) : P d :=
+    let go := fix go (l : list dval) : Forall P l :=
+      match l with [] => Forall_nil _ | x :: l' => Forall_cons x (dval_ind' x) (go l') end in
+    match d with
+    | DLeaf f => Hleaf f
+    | DAdt e fs avs => Hadt e fs avs (go fs) (go avs)
+    | DStd n fs => Hstd n fs (go fs)
+    | DName n => Hname n
+    | DList items => Hlist items (go items)
+    | DArgs ps tail =>
+        Hargs ps tail
+          ((fix go2 (l : list (str * cfg * dval)) : Forall (fun p => P (snd p)) l :=
+              match l with
+              | [] => Forall_nil _
+              | p :: l' => Forall_cons p (dval_ind' (snd p)) (go2 l')
+              end) ps)
+    end.
+End dval_induction.
+
+(** same text and result under every configuration and writer *)
+Definition sem_eq (v v' : val) : Prop := forall c w, fmt_val v c w = fmt_val v' c w.
+
+Lemma sem_eq_refl v : sem_eq v v.
+Proof. intros c w. reflexivity. Qed.
+
+Lemma to_std_fexpr fv av x :
+  to_std (fexpr_val fv av x) = fexpr_val (fun i => to_std (fv i)) (fun i k => to_std (av i k)) x.
+Proof. destruct x; reflexivity. Qed.
+
+Lemma to_std_body_val fv av b :
+  to_std (body_val fv av b) =
+  body_val (fun i => to_std (fv i)) (fun i k => to_std (av i k)) (std_of_body b).
+Proof.
+  destruct b as [n|n fs ex|n fs ex|n fs ex]; cbn [body_val to_std std_of_body]; try reflexivity.
+  - f_equal. rewrite map_map. apply map_ext. intros x. apply to_std_fexpr.
+  - f_equal. rewrite map_map. apply map_ext. intros x. apply to_std_fexpr.
+  - f_equal. rewrite map_map. apply map_ext. intros [k x]. now rewrite to_std_fexpr.
+Qed.
+
+Definition core_only (b : body) : Prop := match b with BDmTuple _ _ _ => False | _ => True end.
+
+Lemma core_only_std_of_body b : core_only (std_of_body b).
+Proof. destruct b; exact I. Qed.
+
+Lemma fexpr_val_cong fv fv' av av' x :
+  (forall i, sem_eq (fv i) (fv' i)) -> (forall i k, sem_eq (av i k) (av' i k)) ->
+  sem_eq (fexpr_val fv av x) (fexpr_val fv' av' x).
+Proof. intros Hf Ha. destruct x; cbn; auto. Qed.
+
+Lemma body_val_cong b fv fv' av av' :
+  core_only b ->
+  (forall i, sem_eq (fv i) (fv' i)) -> (forall i k, sem_eq (av i k) (av' i k)) ->
+  sem_eq (body_val fv av b) (body_val fv' av' b).
+Proof.
+  intros Hb Hf Ha c w. destruct b as [n|n fs ex|n fs ex|n fs ex]; cbn [body_val fmt_val].
+  - reflexivity.
+  - destruct Hb.
+  - apply tuple_fmt_std_cong. clear Hb. induction fs as [|x fs IH]; cbn; [constructor|]. constructor; [|exact IH].
+    intros w'. now apply fexpr_val_cong.
+  - apply struct_fmt_cong. clear Hb. induction fs as [|[k x] fs IH]; cbn; [constructor|]. constructor; [|exact IH].
+    split; [reflexivity|]. intros w'. cbn [snd]. now apply fexpr_val_cong.
+Qed.
+
+(** the std side of an item = derive_more's calls on core's builder, for every formatter *)
+Lemma std_side_body_sem e fv av :
+  sem_eq (body_val fv av (std_side_body e)) (body_val fv av (std_of_body (generate_body_now e))).
+Proof.
+  intros c w. unfold std_side_body. destruct (no_attrs e) eqn:Hna.
+  - symmetry. now apply derive_calls_same_now.
+  - now rewrite attrs_reference.
+Qed.
+
+Lemma nth_val_map_sem (f g : dval -> val) fs :
+  Forall (fun d => sem_eq (f d) (g d)) fs -> forall i, sem_eq (nth_val (map f fs) i) (nth_val (map g fs) i).
+Proof.
+  induction 1 as [|d fs Hd _ IH]; intros [|i]; cbn; try apply sem_eq_refl; [exact Hd|apply IH].
+Qed.
+
+Lemma to_std_nth_val l i : to_std (nth_val l i) = nth_val (map to_std l) i.
+Proof. unfold nth_val. revert i. induction l as [|x l IH]; intros [|i]; cbn; auto. Qed.
+
+Lemma Forall2_agree_maps (f g : dval -> val) c fs :
+  Forall (fun d => sem_eq (f d) (g d)) fs ->
+  Forall2 (agree_at c) (map fmt_val (map f fs)) (map fmt_val (map g fs)).
+Proof. induction 1 as [|d fs Hd _ IH]; cbn; [constructor|]. constructor; [intros w; apply Hd|exact IH]. Qed.
+
+(** LEMMA A: the std-side value is the derive_more value with core's tuple builder everywhere *)
+Lemma std_val_is_to_std : forall d, sem_eq (std_val d) (to_std (dm_val d)).
+Proof.
+  induction d as [f|e fs avs IHf IHa|n fs IH|n|items IH|ps tail IH] using dval_ind'.
+  - apply sem_eq_refl.
+  - cbn [std_val dm_val]. rewrite to_std_body_val. intros c w.
+    rewrite std_side_body_sem. apply body_val_cong; [apply core_only_std_of_body| |].
+    + intros i. rewrite to_std_nth_val, map_map. now apply nth_val_map_sem.
+    + intros i _. rewrite to_std_nth_val, map_map. now apply nth_val_map_sem.
+  - intros c w. cbn [std_val dm_val to_std fmt_val]. apply tuple_fmt_std_cong.
+    rewrite (map_map dm_val to_std).
+    now apply (Forall2_agree_maps std_val (fun d => to_std (dm_val d))).
+  - apply sem_eq_refl.
+  - intros c w. cbn [std_val dm_val to_std fmt_val]. apply list_fmt_cong. rewrite (map_map dm_val to_std).
+    now apply (Forall2_agree_maps std_val (fun d => to_std (dm_val d))).
+  - intros c w. cbn [std_val dm_val to_std fmt_val]. unfold args_fmt. apply run_args_cong.
+    rewrite !map_map. induction IH as [|[[l c'] x] ps Hx _ IHps]; cbn; [constructor|]. constructor; [|exact IHps].
+    repeat split. cbn [fst snd] in *. intros w'. apply Hx.
+Qed.
+
+(** THE PROPERTY, end to end: outside the known-finding class a program in which every type derives
+    derive_more::Debug prints what the identical program prints with std's derive (attribute-free types)
+    / the hand-written reference (types with skip or format attributes) - every type shape, every nesting
+    depth, every formatter configuration, every writer *)
+Lemma end_to_end d c :
+  known_class d c = false -> forall w, fmt_val (dm_val d) c w = fmt_val (std_val d) c w.
+Proof.
+  unfold known_class. intros H w. apply negb_false_iff in H.
+  rewrite (safe_same_as_std _ _ H w). symmetry. apply std_val_is_to_std.
+Qed.
+
+(** programs without any #[debug] attribute *)
+Fixpoint attr_free (d : dval) : bool :=
+  match d with
+  | DLeaf _ | DName _ => true
+  | DAdt e fs _ => no_attrs e && forallb attr_free fs
+  | DStd _ fs => forallb attr_free fs
+  | DList items => forallb attr_free items
+  | DArgs _ _ => false
+  end.
+
+Lemma nth_val_args_ok (f : dval -> val) fs :
+  Forall (fun d => attr_free d = true -> args_ok (f d) = true) fs -> forallb attr_free fs = true ->
+  forall i, args_ok (nth_val (map f fs) i) = true.
+Proof.
+  induction 1 as [|d fs Hd _ IH]; intros Hs i.
+  - destruct i; reflexivity.
+  - cbn [forallb] in Hs. apply andb_true_iff in Hs as [H1 H2]. destruct i as [|i].
+    + exact (Hd H1).
+    + exact (IH H2 i).
+Qed.
+
+Lemma forallb_map_args_ok (f : dval -> val) fs :
+  Forall (fun d => attr_free d = true -> args_ok (f d) = true) fs -> forallb attr_free fs = true ->
+  forallb args_ok (map f fs) = true.
+Proof.
+  induction 1 as [|d fs Hd _ IH]; intros Hs; cbn in *; [reflexivity|].
+  apply andb_true_iff in Hs as [H1 H2]. apply andb_true_iff. auto.
+Qed.
+
+Lemma std_unnamed_args_ok fv av : (forall i, args_ok (fv i) = true) ->
+  forall l i, forallb args_ok (map (fexpr_val fv av) (std_unnamed_calls i l)) = true.
+Proof. intros H. induction l as [|a l IH]; intros i; cbn; [reflexivity|]. now rewrite H, IH. Qed.
+
+Lemma std_named_args_ok fv av : (forall i, args_ok (fv i) = true) ->
+  forall l i, forallb (fun p : str * val => let '(_, x) := p in args_ok x)
+                (map (fun p : str * fexpr => let '(k, x) := p in (k, fexpr_val fv av x)) (std_named_calls i l)) = true.
+Proof. intros H. induction l as [|[id a] l IH]; intros i; cbn; [reflexivity|]. now rewrite H, IH. Qed.
+
+Lemma attr_free_args_ok : forall d, attr_free d = true -> args_ok (dm_val d) = true.
+Proof.
+  induction d as [f|e fs avs IHf IHa|n fs IH|n|items IH|ps tail IH] using dval_ind'; intros Ha;
+    cbn [attr_free] in Ha; try discriminate Ha; try reflexivity.
+  - apply andb_true_iff in Ha as [Hna Hfs]. cbn [dm_val].
+    pose proof (nth_val_args_ok dm_val fs IHf Hfs) as Hfv.
+    destruct e as [id fl]. unfold generate_body_now, generate_body, no_attrs in *. cbn [e_ident e_fields] in *.
+    destruct fl as [|l|l].
+    + reflexivity.
+    + rewrite (unnamed_calls_no_attrs l 0) by exact Hna. cbn [body_val args_ok].
+      now apply std_unnamed_args_ok.
+    + rewrite (named_calls_no_attrs l _ 0); [|exact Hna|now left]. cbn [body_val args_ok].
+      now apply std_named_args_ok.
+  - cbn [dm_val args_ok]. now apply forallb_map_args_ok.
+  - cbn [dm_val args_ok]. now apply forallb_map_args_ok.
+Qed.
+
+(** no attributes, compact formatter (every other option allowed): indistinguishable from std's derive *)
+Lemma attr_free_compact d c :
+  attr_free d = true -> alternate c = false -> forall w, fmt_val (dm_val d) c w = fmt_val (std_val d) c w.
+Proof.
+  intros Ha Hc. apply end_to_end. unfold known_class. apply negb_false_iff.
+  apply args_ok_safe; [|now apply attr_free_args_ok]. unfold cfg_ok_for_dm_tuple. now rewrite Hc.
+Qed.
+
+(** no attributes, [{:#?}] and nothing else *)
+Lemma attr_free_pretty d :
+  attr_free d = true -> forall w, fmt_val (dm_val d) pretty_cfg w = fmt_val (std_val d) pretty_cfg w.
+Proof.
+  intros Ha. apply end_to_end. unfold known_class. apply negb_false_iff.
+  apply args_ok_safe; [reflexivity|now apply attr_free_args_ok].
+Qed.
+
+(** the std side of an attribute-free program really is std's derive at every node *)
+Lemma attr_free_std_side e : no_attrs e = true -> std_side_body e = std_derive_body e.
+Proof. intros H. unfold std_side_body. now rewrite H. Qed.
+
+(** the witness of the known class, as a program: [struct D(u8)]-like under [{:#x?}] *)
+Definition witness_program : dval :=
+  DAdt (mkexp (mkid false [68]) (FUnnamed [ANone])) [DLeaf hexish_leaf] [].
+
+Lemma known_class_witness :
+  attr_free witness_program = true /\ known_class witness_program pretty_hex_cfg = true /\
+  render (dm_val witness_program) pretty_hex_cfg <> render (std_val witness_program) pretty_hex_cfg.
+Proof. repeat split. vm_compute. discriminate. Qed.
+
+(** ... and the class is hit by every configuration it names *)
+Lemma known_class_every_cfg c :
+  cfg_ok_for_dm_tuple c = false ->
+  let d := DAdt (mkexp (mkid false [68]) (FUnnamed [ANone])) [DLeaf cfg_probe_leaf] [] in
+  attr_free d = true /\ known_class d c = true /\
+  render (dm_val d) c <> render (std_val d) c.
+Proof.
+  intros H d. split; [reflexivity|]. split.
+  - unfold known_class, d. cbn. now rewrite H.
+  - exact (unsafe_cfg_differs c H).
+Qed.
+
+Example end_to_end_example :
+  let inner := DAdt (mkexp (mkid true [102; 110]) (FNamed [(mkid true [116; 121; 112; 101], ANone)])) [DLeaf hexish_leaf] [] in
+  let d := DAdt (mkexp (mkid false [83]) (FUnnamed [ANone; ASkip; AFmt 0]))
+                [DList [inner; inner]; DName [78]; DLeaf hexish_leaf]
+                [DName []; DName []; DArgs [([60], pretty_hex_cfg, DLeaf hexish_leaf)] [62]] in
+  known_class d pretty_cfg = false /\ known_class d pretty_hex_cfg = true /\
+  render (dm_val d) pretty_cfg = render (std_val d) pretty_cfg.
+Proof. vm_compute. repeat split. Qed.
